@@ -9,6 +9,7 @@ from . import vmcommon as vc
 
 sys.path.insert(0, os.path.join(core.VERIF, 'gen'))
 import frontgen  # noqa: E402
+from . import cfgtext  # noqa: E402
 
 
 def files_field(files):
@@ -111,10 +112,12 @@ def run(ctx):
             if n_sc_bad <= 3:
                 rep.violation('oracle', {'property': 'C10', 'kind': 'scaling (%s)' % c['label'], 'seed': ctx.seed, 'case': c['id'], 'input_bytes': c['bytes'],
                                          'difference': bad + ' (limit 4 s per run)', 'line': c['line'][:3000] + ('…' if len(c['line']) > 3000 else '')})
-    cov = {'evaluations': len(cases) + len(sc), 'distinct_nontrivial': len(distinct),
+    ctcov = cfgtext.explore(ctx, rep, 'C10', 3000 if quick else 60000)
+    cov = {'evaluations': len(cases) + len(sc) + ctcov['config_texts'], 'distinct_nontrivial': len(distinct),
            'rule': 'valid SQF programs, config texts and preprocessor sources (object- and function-like macros, multi-line defines, conditionals, includes, strings and comments containing markers) and five mutations of each (truncation at a random byte, deletion, duplication and swap of spans, insertion of a quote/comment opener/bracket/directive/NUL/0xff, one random byte) through the SQF front end, the config front end and the preprocessor, a third of them also through compile / preprocess__ / configparse__ from a script; oracle: the front end returns twice with identical results, ok or fail, and a failure comes with at least one error diagnostic; mutated SQF inputs are also compared with the Lean model of the SQF front end (instruction listing or parse error); scaling inputs (nesting 2000/9000 deep, 9000 expansions, macro chains, 300000 unclosed brackets, recursive macros and includes) must answer within 4 s per run; distinct by (kind, bytes)',
            'samples': samples, 'oracle_failures': n_or + n_sc_bad, 'model_mismatches': n_mm, 'outcomes': outcomes, 'mutation_counts': g.stats,
+           'config_text_front_end': ctcov,
            'scaling_inputs': [{'label': c['label'], 'bytes': c['bytes'], 'observation': (simpl.get(c['id']) or '')[:40]} for c in sc]}
-    return rep.finish(cov, ['the config front end and the preprocessor are explored, not modelled (the preprocessor model belongs to C13)',
+    return rep.finish(cov, ['the preprocessor is explored here, not modelled (its model belongs to C13); the config tokenizer and grammar are modelled (SqfModel/CfgText.lean) and compared token for token and tree for tree',
                             '"time proportional to the input" is observed through the scaling inputs and the per-case time limit, it is a theorem only for the tokenizer model (token count)',
                             'reads outside the input buffer are observed only in a sanitizer build (thorough tier of C09/C17), the tokenizer model cannot read outside by construction'])
